@@ -18,6 +18,55 @@ pub struct Model { pub workbook: Workbook, pub rest: ModelRest }
 //@type base/src/worksheet.rs WorksheetDimension
 pub open spec fn small(x: int) -> bool { -4194304 <= x <= 4194304 }
 
+
+// ---- block moves (C15): the order in which move_{rows,columns}_action performs the single moves composes to the block permutation ----
+pub open spec fn move1(x: int, m: int, d: int) -> int {
+    if x == m { m + d } else if d > 0 && m < x <= m + d { x - 1 } else if d < 0 && m + d <= x < m { x + 1 } else { x }
+}
+/// from the statement: the block [m, m+n-1] lands d further, the lines in between shift by the block size, everything else stays
+pub open spec fn moveblk(x: int, m: int, n: int, d: int) -> int {
+    if m <= x <= m + n - 1 { x + d }
+    else if d > 0 && m + n - 1 < x <= m + n - 1 + d { x - n }
+    else if d < 0 && m + d <= x < m { x + n }
+    else { x }
+}
+pub open spec fn apply_moves(x: int, s: Seq<(int, int)>) -> int
+    decreases s.len()
+{
+    if s.len() == 0 { x } else { move1(apply_moves(x, s.drop_last()), s.last().0, s.last().1) }
+}
+/// the moves the code performs: last line first when moving forward, first line first when moving backward
+pub open spec fn block_moves(m: int, n: int, d: int, j: int) -> Seq<(int, int)>
+    decreases j
+{
+    if j <= 0 { Seq::empty() } else { block_moves(m, n, d, j - 1).push((if d > 0 { m + n - j } else { m + j - 1 }, d)) }
+}
+pub open spec fn partial_blk(x: int, m: int, n: int, d: int, j: int) -> int {
+    if d > 0 {
+        if m + n - j <= x <= m + n - 1 { x + d } else if m + n - 1 < x <= m + n - 1 + d { x - j } else { x }
+    } else {
+        if m <= x <= m + j - 1 { x + d } else if m + d <= x < m { x + j } else { x }
+    }
+}
+pub proof fn lemma_block_moves(x: int, m: int, n: int, d: int, j: int)
+    requires 0 <= j <= n, d != 0
+    ensures apply_moves(x, block_moves(m, n, d, j)) == partial_blk(x, m, n, d, j)
+    decreases j
+{
+    if j > 0 {
+        lemma_block_moves(x, m, n, d, j - 1);
+        let s = block_moves(m, n, d, j);
+        assert(s.drop_last() =~= block_moves(m, n, d, j - 1));
+    }
+}
+/// C15: after all n single moves every line sits where the block permutation of the statement puts it
+pub proof fn lemma_block_move_is_permutation(x: int, m: int, n: int, d: int)
+    requires n > 0, d != 0
+    ensures apply_moves(x, block_moves(m, n, d, n)) == moveblk(x, m, n, d)
+{
+    lemma_block_moves(x, m, n, d, n);
+}
+
 impl Workbook {
     pub uninterp spec fn sheet_exists(&self, i: u32) -> bool;
     #[verifier::external_body]
@@ -34,7 +83,7 @@ impl Worksheet {
 impl Model {
 // A-atomic for the first mutation; the read-only can_* pre-checks cannot change anything (&self)
 //@stub base/src/model.rs Model::reset_dynamic_array_spills
-    ensures r.is_err() ==> *final(self) == *old(self),
+    ensures r.is_err() ==> *final(self) == *old(self), final(self).moves() == old(self).moves(),
             forall|i: u32| final(self).workbook.sheet_exists(i) == old(self).workbook.sheet_exists(i)   // it never adds or removes sheets
 //@end
 //@stub base/src/actions.rs Model::can_insert_rows
@@ -50,11 +99,15 @@ impl Model {
 //@stub base/src/actions.rs Model::can_move_rows_action
 //@end
 // the unchecked single-line moves require what their name says the caller has checked: source and target on the grid
+    /// ghost: the single-line moves performed so far, in order
+    pub uninterp spec fn moves(&self) -> Seq<(int, int)>;
 //@stub base/src/actions.rs Model::move_column_unchecked
     requires 1 <= column <= 16384, 1 <= column + delta <= 16384
+    ensures r.is_ok() ==> final(self).moves() == old(self).moves().push((column as int, delta as int))
 //@end
 //@stub base/src/actions.rs Model::move_row_unchecked
     requires 1 <= row <= 1048576, 1 <= row + delta <= 1048576
+    ensures r.is_ok() ==> final(self).moves() == old(self).moves().push((row as int, delta as int))
 //@end
 
 pub fn insert_rows_validated_prefix(&mut self, sheet: u32, row: i32, row_count: i32) -> (r: Result<(), String>)
@@ -100,6 +153,11 @@ pub fn delete_columns_validated_prefix(&mut self, sheet: u32, column: i32, colum
 #[verifier::loop_isolation(false)]
 //@spec
     requires small(column as int), small(column_count as int), small(delta as int)
+    ensures r.is_ok() && column_count > 0 && delta != 0 ==> final(self).moves() =~= old(self).moves() + block_moves(column as int, column_count as int, delta as int, column_count as int)
+//@loop 1 it
+                invariant self.moves() =~= old(self).moves() + block_moves(column as int, column_count as int, delta as int, it.index@)
+//@loop 2 it
+                invariant self.moves() =~= old(self).moves() + block_moves(column as int, column_count as int, delta as int, it.index@)
 //@rewrite `) -> Result<(), String> {` => `) -> (r: Result<(), String>) {`
 //@end
 //@fn base/src/actions.rs Model::move_rows_action
@@ -107,6 +165,11 @@ pub fn delete_columns_validated_prefix(&mut self, sheet: u32, column: i32, colum
 #[verifier::loop_isolation(false)]
 //@spec
     requires small(row as int), small(row_count as int), small(delta as int)
+    ensures r.is_ok() && row_count > 0 && delta != 0 ==> final(self).moves() =~= old(self).moves() + block_moves(row as int, row_count as int, delta as int, row_count as int)
+//@loop 1 it
+                invariant self.moves() =~= old(self).moves() + block_moves(row as int, row_count as int, delta as int, it.index@)
+//@loop 2 it
+                invariant self.moves() =~= old(self).moves() + block_moves(row as int, row_count as int, delta as int, it.index@)
 //@rewrite `) -> Result<(), String> {` => `) -> (r: Result<(), String>) {`
 //@end
 }
